@@ -607,6 +607,18 @@ func onlyStrictModeErrorsLost(a, b [][]string, ignoreExports bool) bool {
 	return differ > 0
 }
 
+// exposesSourceText: some trace event carries the source text of a function or class (it was stringified)
+func exposesSourceText(trs [][]string) bool {
+	for _, tr := range trs {
+		for _, e := range tr {
+			if strings.Contains(e, "class{") || strings.Contains(e, "class {") || strings.Contains(e, "function(") || strings.Contains(e, "function (") || strings.Contains(e, "=>") {
+				return true
+			}
+		}
+	}
+	return false
+}
+
 type pendingProbe struct {
 	key     map[string]interface{}
 	detail  map[string]interface{}
@@ -783,6 +795,14 @@ func runTrees(r *core.Run, cases []treeCase, cfgs []config) {
 				nProbeCmp++
 				if ok, why := sameTraces(pb.res[q.in].Traces, pb.res[q.out].Traces, q.ignoreX); !ok {
 					q.detail["input_traces"], q.detail["output_traces"] = pb.res[q.in].Traces, pb.res[q.out].Traces
+					if exposesSourceText(pb.res[q.in].Traces) {
+						// the program converts a function or class to a string and uses the text (as a property key, in
+						// arithmetic): Function.prototype.toString exposes the source text, which every transform changes;
+						// the property excludes it (whitespace alone is already ignored by squeeze, but values DERIVED from
+						// the text - a key looked up on the probe object - differ legitimately)
+						r.Inc("tree_probe_excluded_source_text_observed", 1)
+						continue
+					}
 					if q.conv && onlyStrictModeErrorsLost(pb.res[q.in].Traces, pb.res[q.out].Traces, q.ignoreX) {
 						// structural cause: the module (always strict code) became a sloppy script
 						q.key["strictness_lost_in_format_conversion"] = true
